@@ -69,8 +69,7 @@ def run(ctx):
     for fl in ("hooks", "asan"):
         G.exe(fl)
     j = lambda fl, sc, res, out: judge(ctx, fl, sc, res, out)
-    G.run_all(ctx, "hooks", scs, 20, j)
-    G.run_all(ctx, "asan", scs[: len(DIRECTED) + max(24, n // 10)], 40, j)
+    G.run_many(ctx, [("asan", scs[: len(DIRECTED) + max(60, n // 10)], 70), ("hooks", scs, 20)], j)
 
 
 def replay(ctx, w):
